@@ -115,7 +115,7 @@ pub fn shuffle<X>(s: &mut Stream, items: &mut Vec<X>) {
     }
 }
 
-fn efg_label(text: &str) -> String {
+pub fn efg_label(text: &str) -> String {
     let mut res = String::from("\"");
     for c in text.chars() {
         if c == '"' || c == '\\' {
@@ -168,6 +168,19 @@ fn decompose(x: f64) -> (i128, i32) {
     (m, e)
 }
 
+/// n / 2^k written as an exact decimal (k <= 24, 0 <= n <= 2^k)
+fn exact_decimal(n: i128, k: u32) -> String {
+    let scaled = n * 5i128.pow(k);
+    let digits = format!("{:0width$}", scaled, width = k as usize + 1);
+    let (int, frac) = digits.split_at(digits.len() - k as usize);
+    let frac = frac.trim_end_matches('0');
+    if frac.is_empty() {
+        int.to_string()
+    } else {
+        format!("{}.{}", int, frac)
+    }
+}
+
 fn gcd(a: i128, b: i128) -> i128 {
     if b == 0 {
         a.abs().max(1)
@@ -184,8 +197,19 @@ pub struct EfgOpts {
     pub unnamed_fraction: u32,
 }
 
+#[derive(Clone, Debug)]
+pub struct EfgLine {
+    pub kind: char,
+    pub player: usize,
+    pub infoset: u64,
+    pub name: Option<String>,
+    pub text: String,
+}
+
 pub struct EfgText {
     pub text: String,
+    pub header: String,
+    pub lines: Vec<EfgLine>,
     /// printed (library) infoset name per player and tree infoset name
     pub printed: [BTreeMap<String, String>; 2],
     pub interior_outcomes: usize,
@@ -195,6 +219,7 @@ pub struct EfgText {
 struct EfgCtx<'s, 'a> {
     s: &'s mut Stream<'a>,
     lines: Vec<String>,
+    meta: Vec<EfgLine>,
     chance_ids: BTreeMap<String, u64>,
     next_chance: u64,
     info_ids: [BTreeMap<String, (u64, bool)>; 2],
@@ -211,6 +236,7 @@ pub fn to_efg_text(tree: &T, opts: &EfgOpts, s: &mut Stream) -> EfgText {
     let mut ctx = EfgCtx {
         s,
         lines: Vec::new(),
+        meta: Vec::new(),
         chance_ids: BTreeMap::new(),
         next_chance: 1,
         info_ids: Default::default(),
@@ -222,7 +248,7 @@ pub fn to_efg_text(tree: &T, opts: &EfgOpts, s: &mut Stream) -> EfgText {
     };
     // infoset numbers (arbitrary distinct positive numbers) and whether the infoset is named
     for p in 0..2 {
-        let mut numbers: Vec<u64> = (1..=info.infosets[p].len() as u64).map(|k| k * 3 + ctx.s.below(3) as u64).collect();
+        let mut numbers: Vec<u64> = (1..=info.infosets[p].len() as u64).map(|k| 100 + k * 3 + ctx.s.below(3) as u64).collect();
         shuffle(ctx.s, &mut numbers);
         for (name, num) in info.infosets[p].keys().zip(numbers.into_iter()) {
             let named = !ctx.s.chance(ctx.opts.unnamed_fraction);
@@ -252,6 +278,8 @@ pub fn to_efg_text(tree: &T, opts: &EfgOpts, s: &mut Stream) -> EfgText {
     let sep = if ctx.s.bool() { "\n" } else { " " };
     EfgText {
         text: format!("{}\n{}\n", header, ctx.lines.join(sep)),
+        header: header.clone(),
+        lines: ctx.meta.clone(),
         printed,
         interior_outcomes: ctx.interior,
         unnamed_infosets: unnamed,
@@ -310,6 +338,7 @@ fn efg_node(node: &T, ctx: &mut EfgCtx, acc1: f64, acc2: f64) {
             };
             let name = if ctx.opts.share_outcomes { String::new() } else if ctx.s.bool() { format!(" {}", efg_label("leaf")) } else { String::new() };
             ctx.lines.push(format!("t {} {}{} {}", efg_label(""), num, name, pay));
+            ctx.meta.push(EfgLine { kind: 't', player: 0, infoset: 0, name: None, text: ctx.lines.last().unwrap().clone() });
         }
         T::Chance(label, outs) => {
             let num = match label {
@@ -330,19 +359,24 @@ fn efg_node(node: &T, ctx: &mut EfgCtx, acc1: f64, acc2: f64) {
             };
             // every finite f64 is an integer times a power of two, so the probabilities can be
             // written as exact rationals n_i / N that sum to one
-            let parts: Vec<(i128, i32)> = outs.iter().map(|(w, _)| decompose(*w)).collect();
+            let parts: Vec<(i128, i32)> = outs.iter().map(|(w, _)| if *w > 0.0 && w.is_finite() { decompose(*w) } else { (1, 0) }).collect();
             let min_exp = parts.iter().map(|(_, e)| *e).min().unwrap_or(0);
             let ints: Vec<i128> = parts.iter().map(|(m, e)| m << (e - min_exp) as u32).collect();
             let total: i128 = ints.iter().sum();
             let dyadic_total = total.count_ones() == 1;
-            let decimal = dyadic_total && ctx.s.bool();
+            let log_total = total.trailing_zeros();
+            let decimal = dyadic_total && log_total <= 24 && ctx.s.bool();
+            let valid_weights = !outs.is_empty() && outs.iter().all(|(w, _)| *w > 0.0 && w.is_finite());
             let probs: Vec<String> = outs
                 .iter()
                 .enumerate()
-                .map(|(i, _)| {
-                    let p = if decimal {
-                        // n / 2^k is an exact, terminating decimal
-                        format!("{}", ints[i] as f64 / total as f64)
+                .map(|(i, (w, _))| {
+                    let p = if !valid_weights {
+                        // corrupted weights (C17) are written as they are
+                        format!("{}", w)
+                    } else if decimal {
+                        // n / 2^k = n 5^k / 10^k is an exact, terminating decimal
+                        exact_decimal(ints[i], log_total)
                     } else {
                         let g = gcd(ints[i], total);
                         if ctx.s.bool() {
@@ -356,6 +390,7 @@ fn efg_node(node: &T, ctx: &mut EfgCtx, acc1: f64, acc2: f64) {
                 .collect();
             let (outcome, d1, d2) = interior(ctx, false);
             ctx.lines.push(format!("c {} {} {{ {} }} {}", efg_label(""), num, probs.join(" "), outcome));
+            ctx.meta.push(EfgLine { kind: 'c', player: 0, infoset: num, name: None, text: ctx.lines.last().unwrap().clone() });
             for (_, t) in outs {
                 efg_node(t, ctx, acc1 + d1, acc2 + d2);
             }
@@ -379,6 +414,13 @@ fn efg_node(node: &T, ctx: &mut EfgCtx, acc1: f64, acc2: f64) {
                 labels.join(" "),
                 outcome
             ));
+            ctx.meta.push(EfgLine {
+                kind: 'p',
+                player: *p,
+                infoset: num,
+                name: if write_name { Some(name.clone()) } else { None },
+                text: ctx.lines.last().unwrap().clone(),
+            });
             for i in order {
                 efg_node(&acts[i].1, ctx, acc1 + d1, acc2 + d2);
             }
